@@ -39,7 +39,7 @@ def cases(tier):
         {'ops': [mk(*b, share=['buffer', 0, 0])], 'exports': [],
          'prefix': 'b_', 'key': 'sig1'}]}, 'modes': modes}
   if True:
-    for (a, b) in (PAIRS if tier == 'thorough' else PAIRS[:1]):
+    for (a, b) in PAIRS:
       for how in ('tensor', 'buffer'):
         yield {'ir': {'subgraphs': [{'ops': [
             mk(*a), mk(*b, share=[how, 0, 0]), mk(*a, share=[how, 0, 0])],
